@@ -122,6 +122,7 @@ static const char *TEMPLATES[] = {
     "%d H", "%d D", "%d T", "%d ! timeout", "-1 X login.ex %x_%x :OK alice:1", "-1 X login.ex %x_%x :OK", "-1 X ipr.ex %x_%x :MORE say friend",
     "-1 X bot.ex %x_%x :NO go away", "-1 X comb.ex %x_%x :AGAIN later", "-1 x login.ex %x_%x :gone", "-1 X bot.ex %x_%x :OK", "-1 X comb.ex %x_%x :OK bob",
     "-1 X ipr.ex %x_%x :OK carol:2", "%d N", "%d P", "%d n", "%d U onlyuser", "%d", "", "%d E a :b", "-1 M srv 10", "-1 ? config", "%d C 1.2.3.4",
+    "%d C 2001:db8::/32 1000 0::1 6667", "%d C 10.0.0.0/8 1 10.* 2", "%d C 1:2:* 1 * 2", "%d C 1::/128 5 1:2:3:4:5:6:7:1.2.3.4 6", "%d C 1.2/16 1 1:2:3:4:5:6:1.2.3.4/128 2",
     "%d Z junk", "-1 X nobody.ex %x_%x :OK", "-1 X login.ex zz :OK", "-1 X", "%d C 1.2.3.4.5 1 ::: 2", "%d U a b c d e f g h i j k l m n o p q r",
 };
 #define NTEMPL (sizeof(TEMPLATES) / sizeof(TEMPLATES[0]))
